@@ -15,7 +15,7 @@ ENV.pop("RUSTFLAGS", None)
 
 HARNESS_RE = re.compile(r"^\s*//\s*@harness\b(.*)$")
 INJECT_RE = re.compile(r"^\s*//\s*@inject\b(.*)$")
-FN_RE = re.compile(r"^\s*(?:(?:pub\s+)?fn\s+([A-Za-z0-9_]+)\s*\(|[a-z_0-9]+!\(\s*([A-Za-z0-9_]+)\s*[,)])")
+FN_RE = re.compile(r"^\s*(?:(?:pub\s+)?fn\s+([A-Za-z0-9_]+)\s*\(|[a-z_0-9]+!\(\s*(?:#\[[^\]]*\]\s*)*([A-Za-z0-9_]+)\s*[,)])")
 
 
 def _kv(s):
@@ -83,6 +83,8 @@ def discover():
                         pending = (_kv(m.group(1)), ln)
                         continue
                     m = FN_RE.match(line)
+                    if pending is not None and not m and line.strip() and not line.strip().startswith(("#[", "//")):
+                        raise SystemExit(f"{rel}:{ln}: @harness annotation at line {pending[1]} is not followed by a harness (fn or macro invocation)")
                     if m and pending is not None:
                         if inject is None:
                             raise SystemExit(f"{rel}: @harness before @inject")
